@@ -37,7 +37,7 @@ ASSUMPTIONS = [
 ]
 MANDATORY = ["axis:shuf", "axis:dec", "desc:list", "desc:mask", "desc:scalar", "desc:absent-scalar", "desc:absent-in-list:below",
              "desc:absent-in-list:between", "desc:absent-in-list:above", "desc:repeated", "desc:empty-list", "mixed-kinds",
-             "tol:hit", "tol:miss", "by:position", "by:label", "shuffled-axis-with-list", "position:negative"]
+             "tol:hit", "tol:miss", "tol:by-position", "by:position", "by:label", "shuffled-axis-with-list", "position:negative"]
 
 
 def budget(tier):
@@ -132,7 +132,7 @@ def tol_case(draw):
         else:
             delta = draw(st.sampled_from([0, 0.125, 0.25, 0.5, 0.75, 1.0, 1.5, 2.0, 3.0, -0.125, -0.25, -0.5, -1.0, -2.5]))
             qs.append(base + delta)
-    return {"mode": "tol", "spec": spec, "dim": which, "tol": tol, "q": qs if aslist else qs[0]}
+    return {"mode": "tol", "spec": spec, "dim": which, "tol": tol, "q": qs if aslist else qs[0], "by": draw(st.sampled_from(["label", "label", "position"]))}
 
 
 def strategy(tier):
@@ -271,6 +271,12 @@ def run_tol(case):
     tolv = float("inf") if tol == "inf" else tol
     dims, labels = spec["dims"], spec["labels"]
     vals = core.spec_values(spec)
+    by = case.get("by", "label")
+    with core.options(indexing_by=by):
+        return _run_tol(case, spec, which, tol, q, tolv, dims, labels, vals, by)
+
+
+def _run_tol(case, spec, which, tol, q, tolv, dims, labels, vals, by):
     a = core.build(spec)
     d = dims[which]
     descs = [{"k": "full"}] * len(dims)
@@ -280,15 +286,19 @@ def run_tol(case):
     eff_tol = tolv if numeric else None   # "tol" is ignored on non-numeric axes: exact lookup
     exc = _expected(dims, labels, descs, tol=eff_tol)
     idx = tuple(im.index_object(x) for x in descs)
-    S = [("take(t, tol=)", lambda: a.take(idx, tol=tolv)),
-         ("take(i, axis=, tol=)", lambda: a.take(idx[which], axis=d, tol=tolv)),
-         ("take({dim: i}, tol=)", lambda: a.take({d: idx[which]}, tol=tolv))]
+    if by == "label":
+        S = [("take(t, tol=)", lambda: a.take(idx, tol=tolv)),
+             ("take(i, axis=, tol=)", lambda: a.take(idx[which], axis=d, tol=tolv)),
+             ("take({dim: i}, tol=)", lambda: a.take({d: idx[which]}, tol=tolv))]
+    else:   # the explicitly label-based spellings stay label-based whatever the indexing.by option says
+        S = [("take(t, tol=, indexing=label) (by=position)", lambda: a.take(idx, tol=tolv, indexing="label")),
+             ("take(i, axis=, tol=, indexing=label) (by=position)", lambda: a.take(idx[which], axis=d, tol=tolv, indexing="label"))]
     if tol == "inf":
-        S.append(("nloc[t]", lambda: a.nloc[idx]))
-    sig = {"mode": "tol"}
+        S.append(("nloc[t]" + ("" if by == "label" else " (by=position)"), lambda: a.nloc[idx]))
+    sig = {"mode": "tol", "by": by}
     for name, f in S:
         _apply(f, exc, vals, dims, labels, descs, "%s q=%r tol=%r labels=%r" % (name, q, tol, labels[which]), sig, tol=eff_tol)
-    cl = ["tol:miss" if exc is not None else "tol:hit", "tol:" + ("numeric" if numeric else "str-axis")]
+    cl = ["tol:miss" if exc is not None else "tol:hit", "tol:" + ("numeric" if numeric else "str-axis"), "tol:by-" + by]
     if numeric and exc is None:
         qs = q if isinstance(q, list) else [q]
         for x in qs:
